@@ -52,7 +52,7 @@ class C07(Prop):
         again = st.tuples(idx, idx, idx, st.integers(0, 2), st.integers(0, 2)).map(lambda t: [
             ['reg', t[0], t[1]], ['unreg', t[2], 0]] + ([['tick', t[2], t[3]]] if t[4] else []) + [['unreg_again', t[2], 0], ['tick', t[1], t[3]],
             ['fire_then_reg', t[2], t[0]], ['tick', t[0], 2]])
-        seg = st.one_of([op] * 14 + [cycle, nest, again])
+        seg = st.integers(0, 9).flatmap(lambda k: (op, op, op, op, op, op, cycle, nest, again, op)[k])      # one_of() would merge the repeated alternatives
         m = 45 if tier == 'quick' else 70
         return st.fixed_dictionaries({
             'n': st.integers(3, 6),
